@@ -129,7 +129,7 @@ def _inline(case) -> str:
     ds = []
     unfired = []
     for i in range(n):
-        if lazy and i % lazy == lazy - 1:
+        if (lazy == "first" and i == 0) or (lazy and lazy != "first" and i % lazy == lazy - 1):
             d = defer.Deferred()
             unfired.append((d, i))
         elif fail and i == n - 1:
@@ -279,7 +279,10 @@ def _shape(case):
     if case["kind"] == "chain":
         return f"chain-{case['shape']}-{'failure' if case['fail'] else 'success'}"
     if case["kind"] == "inline":
-        return f"inline-{case['style']}-{'failure' if case['fail'] else 'success'}" + ("-some-unfired" if case["lazy"] else "")
+        return f"inline-{case['style']}-{'failure' if case['fail'] else 'success'}" + (
+            "-after-first-suspension" if case["lazy"] == "first" else "-some-unfired" if case["lazy"] else "")
+    if case["kind"] == "iprog":
+        return f"iprog-{case['style']}"
     return "program"
 
 
@@ -298,6 +301,25 @@ def oracle(case, obs):
             if states[0] != ("T:E1:0:[]" if fail else "T:1:0:[]") or any(s != "T:N:0:[]" for s in states[1:]):
                 return Failure(case, "the chain did not deliver the innermost result to the outermost Deferred: " + obs[-200:],
                                "wrong-result:chain-" + case["shape"])
+        return None
+    if case["kind"] == "iprog":
+        depths = [int(x) for x in obs.split(" | ")[0].split(" ") if x]
+        names = ["start"] + [o[0] for o in case["ops"]]
+        for k, dep in enumerate(depths):
+            if dep > 9:
+                return Failure(case, f"operation {k} ({names[k]}) reached frame depth {dep} (> 9) with "
+                               f"{len(case['awaits'])} awaits: the driver nests per await", "depth-grows:" + shape)
+        # the result, independently: every await delivered exactly once, in order
+        have = list(case["awaits"])
+        for o in case["ops"]:
+            if o[0] in ("fire", "fail") and have[o[1]] is None:
+                have[o[1]] = ["I", o[2]] if o[0] == "fire" else ["F", o[2]]
+        want = "F:-:0"
+        if all(a is not None for a in have):
+            want = "T:%d:0" % sum(a[1] if a[0] == "I" else 1000 for a in have)
+        got = obs.split(" | ")[1].split(" ")[-1]
+        if got != want:
+            return Failure(case, f"result Deferred {got}, expected {want}", "wrong-result:" + shape)
         return None
     fields = dict(f.split("=") for f in obs.split(" "))
     n = case["n"]
@@ -324,6 +346,23 @@ def oracle(case, obs):
 W = {"add": 6, "cb": 3, "eb": 2}
 
 
+def rand_iprog(rng):
+    n = rng.randrange(0, 10)
+    aw = [None if rng.random() < 0.35 else (["F", rng.randrange(3)] if rng.random() < 0.15 else ["I", rng.randrange(1, 5)])
+          for _ in range(n)]
+    ops = []
+    unfired = [i for i, a in enumerate(aw) if a is None]
+    rng.shuffle(unfired)
+    for i in unfired:
+        if rng.random() < 0.85:
+            ops.append(["fire", i, rng.randrange(1, 5)] if rng.random() < 0.8 else ["fail", i, rng.randrange(3)])
+    if rng.random() < 0.7:
+        ops.insert(rng.randrange(len(ops) + 1), ["rec"])
+    if n and rng.random() < 0.2:
+        ops.insert(rng.randrange(len(ops) + 1), ["fire", rng.randrange(n), 7])      # a second firing / an early one
+    return {"kind": "iprog", "style": rng.choice(["gen", "coro"]), "awaits": aw, "ops": ops}
+
+
 def gen(rng, tier):
     cases = []
     small = [0, 1, 2, 3, 5, 8, 13, 21, 34] if tier == "quick" else list(range(0, 41)) + [60, 90]
@@ -339,9 +378,18 @@ def gen(rng, tier):
                 cases.append({"kind": "chain", "shape": shape, "fail": fail, "n": n})
     for style in ("gen", "coro"):
         for fail in (False, True):
-            for lazy in (0, 7):
+            for lazy in (0, 7, "first"):
                 for n in ([30, 1000, 20000] if tier == "quick" else [30, 1000, 10000, 100000]):
                     cases.append({"kind": "inline", "style": style, "fail": fail, "lazy": lazy, "n": n})
+    # inline programs, operation by operation against the driver model (coq/C02/InlineModel.v)
+    for style in ("gen", "coro"):
+        for n in ([0, 1, 2, 5, 13, 40] if tier == "quick" else list(range(0, 30)) + [60, 120]):
+            cases.append({"kind": "iprog", "style": style, "awaits": [["I", 1]] * n, "ops": []})
+            cases.append({"kind": "iprog", "style": style, "awaits": [None] + [["I", 1]] * n, "ops": [["rec"], ["fire", 0, 1]]})
+            cases.append({"kind": "iprog", "style": style, "awaits": [None] + [["I", 1]] * n + [["F", 1]],
+                          "ops": [["fail", 0, 2], ["rec"]]})
+    for _ in range(500 if tier == "quick" else 8000):
+        cases.append(rand_iprog(rng))
     # random cancel-free programs without user pauses (independent of finding F1), per-operation depths
     for _ in range(400 if tier == "quick" else 6000):
         cases.append({"kind": "program", "program": K.rand_program(rng, rng.randrange(1, 7), rng.randrange(2, 21),
@@ -372,6 +420,10 @@ def corpus():
         {"kind": "chain", "shape": "paused-inner", "fail": False, "n": 2000},
         {"kind": "inline", "style": "gen", "fail": False, "lazy": 0, "n": 2000},
         {"kind": "inline", "style": "coro", "fail": True, "lazy": 0, "n": 2000},
+        {"kind": "inline", "style": "gen", "fail": False, "lazy": "first", "n": 2000},      # seeded C02-A scenario
+        {"kind": "iprog", "style": "gen", "awaits": [None] + [["I", 1]] * 30, "ops": [["rec"], ["fire", 0, 1]]},
+        {"kind": "iprog", "style": "coro", "awaits": [None, ["I", 2], None, ["F", 1], ["I", 3]],
+         "ops": [["fire", 2, 4], ["rec"], ["fire", 0, 1], ["fire", 0, 1]]},
     ]
 
 
@@ -381,6 +433,12 @@ def shrink(case):
         if not case.get("shape"):
             for i in range(len(ops)):
                 yield {"kind": "program", "program": {"canc": case["program"]["canc"], "ops": ops[:i] + ops[i + 1:]}}
+    elif case["kind"] == "iprog":
+        aw, ops = case["awaits"], case["ops"]
+        for i in range(len(ops)):
+            yield {**case, "ops": ops[:i] + ops[i + 1:]}
+        if aw and not any(o[0] != "rec" and o[1] == len(aw) - 1 for o in ops):
+            yield {**case, "awaits": aw[:-1]}
     else:
         n = case["n"]
         for m in (n // 2, n - n // 4):
@@ -391,6 +449,8 @@ def shrink(case):
 def histogram(case, obs):
     if case["kind"] == "program":
         return f"program {'chain-' + case['shape'] if case.get('shape') else 'random'}"
+    if case["kind"] == "iprog":
+        return f"inline program {case['style']} awaits={5 * (len(case['awaits']) // 5)}+"
     return f"{_shape(case)} n={case['n']}"
 
 
@@ -406,20 +466,27 @@ SPEC = Spec(
     coq_header="From TwLib Require Import DeferredK DeferredKShow.\nFrom C02 Require Import Model InlineModel Run.",
     coq_fn="show_case",
     to_coq=to_coq,
-    nontrivial=lambda c, o: c["kind"] != "program" or " 4" in o or o.startswith("4"),
+    nontrivial=lambda c, o: c["kind"] not in ("program", "iprog") or " 4" in o or o.startswith("4") or
+    (c["kind"] == "iprog" and len(c["awaits"]) > 0),
     histogram=histogram, describe=describe,
     case_timeout=120.0,
     rule="4 chain shapes (outer fired first, inner fired first, innermost pre-fired, innermost paused by the user) x "
          "{success, failure}: as kernel programs for 9 lengths <= 34 (quick) / 43 lengths <= 90 (thorough) with the "
          "frame depth of every operation compared with the model, and with 100 ... 10 000 (thorough 100 000 for the success variants and outer/failure) Deferreds "
          "against the 10-element baseline; inlineCallbacks generators and coroutines awaiting 30 ... 20 000 (100 000) "
-         "Deferreds, all pre-fired or every 7th fired later, last one failing or not; 400 (6 000) random cancel-free "
+         "Deferreds, all pre-fired, every 7th fired later, or only the first one unfired (re-entry after a real suspension), last "
+         "one failing or not; inline programs (generator / coroutine, 0-9 awaits pre-fired with values or failures or "
+         "unfired, recorder, firings in any order incl. repeated ones; families 'all pre-fired' and 'first unfired then n "
+         "pre-fired' up to n = 40 (120)) with the frame depth of the start and of every operation and the final state of "
+         "every Deferred compared with the driver model: 500 (8 000) random; 400 (6 000) random cancel-free "
          "programs and 200 (3 000) with pauses on a non-waiting Deferred, depth per operation compared with the model. "
          "non-trivial = depth 4 reached or a long chain/loop; distinct by (case, observation)",
     trusted=["hand-written kernel model coq/Lib/DeferredK.v and the ghost depth of coq/C02/Model.v (tied by measured "
              "frame depths on the modelled cases only)",
              "sys.setprofile frame accounting in harness/c02.py: frames of defer.py code and of the harness callbacks",
-             "_inlineCallbacks / coroutine driving is NOT modelled in Coq: covered by the oracle only",
+             "hand-written model of _inlineCallbacks / _gotResultInlineCallbacks / Deferred.__await__ "
+             "(coq/C02/InlineModel.v): one generator or coroutine with the fixed body 'sum the awaited results, 1000 per "
+             "failure' over distinct callback-free Deferreds; tied by measured per-operation depths and final states",
              "CPython's C-stack use per Python frame is outside the model"],
     assumptions=["recursion limit at its default; cancel() forwarding (a genuine recursion) is outside C02"],
 )
